@@ -96,7 +96,7 @@ def parse_ir(text):
             cond = None
             if kind.endswith("declare") and len(args) >= 6:
                 a = args[5].split()[-1]
-                cond = int(a) if re.fullmatch(r'-?\d+', a) else "?"
+                cond = int(a) if re.fullmatch(r'-?\d+', a) else ("undef" if a in ("undef", "poison") else "?")
             d = _DBG_RE.search(m.group(3))
             calls.append(dict(func=func, kind=kind, id=sid, ints=tuple(ints), cond=cond,
                               dbg=int(d.group(1)) if d else None))
@@ -210,7 +210,7 @@ def analyse_tu(src, tier="quick", extra=(), keep_ir=False):
     t0 = time.time()
     workdir = tempfile.mkdtemp(prefix="e1_", dir=os.environ.get("VERIF_SCRATCH", "/var/tmp"))
     res = dict(tu=os.path.relpath(src, VERIF), tier=tier, extra=list(extra), error=None,
-               declared=[], residual=[], negctl_declared=[], negctl_residual=[], refuted=[],
+               declared=[], residual=[], negctl_declared=[], negctl_residual=[], refuted=[], indeterminate=[],
                pipelines_used=[], cmd=None)
     try:
         rc, dll, se, cmd = compile_tu(src, "declare", tier, extra, workdir)
@@ -286,6 +286,10 @@ def analyse_tu(src, tier="quick", extra=(), keep_ir=False):
                 res["declared"].append(e)
                 if c["cond"] == 0:
                     res["refuted"].append(e)
+                if c["cond"] == "undef":
+                    # the condition was computed from an indeterminate value (a constant out-of-bounds read of a local, an uninitialised
+                    # member): the prove-mode branch on it can be folded either way, so the obligation counts as undischarged
+                    res["indeterminate"].append(e)
             else:
                 res["negctl_declared"].append(e)
         for c in pcalls:
@@ -297,6 +301,11 @@ def analyse_tu(src, tier="quick", extra=(), keep_ir=False):
             res["residual"].append(dict(func=dm.get(c["func"], c["func"]), id=c["id"], ints=list(c["ints"]),
                                         driver_loc=["%s:%d (%s)" % x for x in chain[-2:]],
                                         library_path=["%s :: %s" % x for x in path][:40]))
+        have = set((r["func"], r["id"], tuple(r["ints"])) for r in res["residual"])
+        for e in res["indeterminate"]:
+            if (e["func"], e["id"], tuple(e["ints"])) not in have:
+                res["residual"].append(dict(func=e["func"], id=e["id"], ints=e["ints"], driver_loc=[],
+                                            library_path=["(declare mode) the obligation's condition folded to undef/poison: the path reads an indeterminate value"]))
         if keep_ir:
             res["ir_dir"] = workdir
     finally:
